@@ -1878,8 +1878,11 @@ class Evaluator:
                 except (AnalysisError, RecursionError):
                     return None
                 rets = ps.raw_returns
-                if len(rets) == 1 and not any(e.kind in ("store", "raise", "yield", "delete") for e in ps.events) and ps.params:
-                    return self._fold_records(fold_sub(subst(rets[0].term, {("param", ps.params[0]): t})))
+                if len(rets) == 1 and not any(e.kind in ("store", "yield", "delete") for e in ps.events) and ps.params:
+                    # a guard of the property that cannot fire for THIS record (`if self.frames is None: raise` with frames = int(...))
+                    b_ = {("param", ps.params[0]): t}
+                    if all(fold_sub(self._fold_records(fold_sub(subst(e.live, b_)))) == FALSE for e in ps.events if e.kind == "raise"):
+                        return fold_sub(self._fold_records(fold_sub(subst(rets[0].term, b_))))
             return None
         if attr is not None:
             return rv.get(attr)
@@ -3069,6 +3072,17 @@ class Evaluator:
             selfterm = f[1]
             if any(ast.unparse(d) in ("staticmethod", "classmethod") for d in node.decorator_list):
                 return None
+        elif f[0] == "attr" and ((f[1] in self.rec_types and f[2] in self.rec_types[f[1]].methods)
+                                 or (f[1][0] == "call" and self._is_record(f[1]) and f[2] in self.index.class_by_qual(f[1][1][1]).methods)):
+            # a method of a record (NamedTuple / dataclass value whose fields are known): its body with self bound to the record
+            cls = self.rec_types[f[1]] if f[1] in self.rec_types else self.index.class_by_qual(f[1][1][1])
+            node = pick_def(cls.methods[f[2]])
+            if any(ast.unparse(d) in ("staticmethod", "classmethod", "property") for d in node.decorator_list):
+                return None
+            module = cls.module
+            fname = f"{cls.name}.{f[2]}"
+            modname = module.name
+            selfterm = f[1]
         elif f[0] == "attr" and f[1] in (("param", "self"), ("param", "cls")) and self.cls is not None:
             found = self.cls.find_method(f[2])
             if not found:
@@ -3127,9 +3141,16 @@ class Evaluator:
                 return None
             bound[("param", params[0])] = selfterm
             params = params[1:]
-        if any(a[0] == "star" for a in call_term[2]) or cs.vararg:
+        if any(a[0] == "star" for a in call_term[2]):
             return None
-        if len(call_term[2]) > len(params):
+        if cs.vararg:
+            # f(a, b, c) for `def f(a, *rest)`: rest is the tuple of the remaining positional arguments
+            vname = cs.vararg if isinstance(cs.vararg, str) else None
+            if vname is None or vname in params:
+                return None
+            bound[("param", vname)] = ("tuple", tuple(call_term[2][len(params):]))
+            bound[("param", "*" + vname)] = bound[("param", vname)]
+        elif len(call_term[2]) > len(params):
             return None
         for p, a in zip(params, call_term[2]):
             bound[("param", p)] = a
@@ -4070,14 +4091,33 @@ def fold_sub(t):
         return TRUE if (same if t[1] == "is" else not same) else FALSE
     if t and t[0] == "cmp" and t[1] in ("is", "isnot") and len(t) == 4 and t[3] == NONE and t[2][0] == "global" and t[2][1] in NOT_NONE_GLOBALS:
         return FALSE if t[1] == "is" else TRUE
+    if t and t[0] == "cmp" and t[1] in ("is", "isnot") and len(t) == 4 and t[3] == NONE and (
+            (t[2][0] == "call" and t[2][1] in (("builtin", "int"), ("builtin", "float"), ("builtin", "str"), ("builtin", "len"), ("builtin", "bool"),
+                                               ("builtin", "abs"), ("builtin", "list"), ("builtin", "tuple"), ("builtin", "round")))
+            or t[2][0] in ("bin", "tuple", "list", "dict", "set", "fstr")):
+        return FALSE if t[1] == "is" else TRUE  # int(x) / a + b / a display is never None
     if t and t[0] == "cmp" and t[1] in ("eq", "ne") and len(t) == 4 and t[2][0] == "const" and t[3][0] == "const" \
             and isinstance(t[2][1], (str, int, float, bool)) and isinstance(t[3][1], (str, int, float, bool)):
         return TRUE if (t[2][1] == t[3][1]) == (t[1] == "eq") else FALSE  # `axis == "time"` with the axis substituted
+    if t and t[0] == "cmp" and t[1] in ("eq", "ne") and len(t) == 4 and any(x[0] == "const" and isinstance(x[1], bool) for x in (t[2], t[3])):
+        # `(x is not None) == with_geometry` with the flag substituted: a comparison of a truth value with True / False
+        c_, o_ = (t[2], t[3]) if t[2][0] == "const" and isinstance(t[2][1], bool) else (t[3], t[2])
+        if o_[0] in ("cmp", "not") or (o_[0] == "call" and o_[1] in (("builtin", "isinstance"), ("builtin", "hasattr"), ("builtin", "bool"))):
+            return o_ if (c_[1] is True) == (t[1] == "eq") else NOT(o_)
     if t and t[0] == "cmp" and t[1] in ("in", "notin") and len(t) == 4 and t[2][0] == "const" and t[3][0] in ("tuple", "list", "set") \
             and all(x[0] == "const" for x in t[3][1]):
         r_ = mk_cmp(t[1], t[2], t[3])
         if r_[0] == "const":
             return TRUE if r_[1] else FALSE
+    if t and t[0] == "call" and t[1] in (("builtin", "any"), ("builtin", "all")) and len(t) >= 4 and not t[3] and len(t[2]) == 1:
+        a_ = t[2][0]
+        # any(c(x) for x in (a, b)) with the display substituted for a `*values` parameter
+        if a_[0] == "comp" and len(a_[3]) == 1 and not a_[3][0][2] and a_[3][0][1][0] in ("tuple", "list") \
+                and 0 < len(a_[3][0][1][1]) <= 8 and not any(x[0] == "star" for x in a_[3][0][1][1]):
+            parts_ = [fold_sub(subst(a_[2], {("elem", a_[3][0][0]): item})) for item in a_[3][0][1][1]]
+            return OR(*parts_) if t[1][1] == "any" else AND(*parts_)
+        if a_[0] in ("tuple", "list") and 0 < len(a_[1]) <= 8 and not any(x[0] == "star" for x in a_[1]):
+            return OR(*a_[1]) if t[1][1] == "any" else AND(*a_[1])
     if t and t[0] == "ite" and len(t) == 4 and t[1] in (TRUE, FALSE):
         return t[2] if t[1] == TRUE else t[3]
     if t and t[0] in ("list", "tuple") and len(t) == 2 and isinstance(t[1], tuple) and any(isinstance(x, tuple) and x and x[0] == "star" for x in t[1]):
